@@ -116,6 +116,12 @@ def _helper_body(draw, params, earlier, want):
     return draw(st.sampled_from(opts))
 
 
+def _word_in(w, text):
+    import re
+
+    return re.search(rf"\b{w}\b", text) is not None
+
+
 @st.composite
 def _case(draw):
     helpers = []
@@ -144,8 +150,13 @@ def _case(draw):
         closure = None
         if style in ("def", "defdoc", "lambda") and want == "N" and draw(st.integers(0, 5)) == 0:
             # the helper uses a constant of its own module (the module of the query): it must not be left as a free name
-            closure = {"kind": "modconst", "name": f"K{i}", "value": draw(st.integers(5, 9))}
-            body = f"({body}) + K{i}"
+            # the constant may be spelled like a name that the QUERY lambda (or a lambda / comprehension nested in it) binds around
+            # the call: inside the helper it still is the module's constant
+            cname = draw(st.sampled_from([f"K{i}", f"K{i}", "e", "j", "v", "x"]))
+            if cname in names or any(cname == h_["closure"]["name"] for h_ in helpers if h_.get("closure")) or _word_in(cname, body):
+                cname = f"K{i}"
+            closure = {"kind": "modconst", "name": cname, "value": draw(st.integers(5, 9))}
+            body = f"({body}) + {cname}"
         if closure is None and style in ("def", "defdoc") and want == "N" and draw(st.integers(0, 3)) == 0:
             # the helper lives in another scope (a factory) and has a free name of its own; the module that holds the query
             # defines the same name with another meaning
